@@ -275,7 +275,7 @@ def effect_skeleton(ctx, f, dev):
         return _key(_Norm().visit(_copy.deepcopy(fv.res.resolve(e, at))))
 
     events = []
-    for n in sorted(fv.cfg.nodes, key=lambda n: (n.lineno, n.id)):
+    for n in sorted(fv.cfg.nodes, key=lambda n: n.id):  # creation order = textual order of the (helper-expanded) body
         what = None
         args = ()
         # rejections are represented by the facts they establish at the later events (so that moving a validation
